@@ -36,11 +36,12 @@ Definition effect_inside (ly : layer) (e : effect) : Prop :=
   match e with
   | ERead c | EProbe c | EStore c => valid_coord (lg ly) c
   | EUp b w h =>
-    (* the meta tile of a tile of the grid, or (minimize_meta_requests) the block spanned by two tiles of the grid *)
-    (exists m, valid_coord (lg ly) m /\ b = meta_bbox ly m /\ (w, h) = meta_px ly m) \/
-    (exists x0 y0 x1 y1 l, valid_coord (lg ly) (x0, y0, l) /\ valid_coord (lg ly) (x1, y1, l) /\
-       b = merge_bbox (tile_bbox (lg ly) x0 y0 l) (tile_bbox (lg ly) x1 y1 l) /\
-       w = (x1 - x0 + 1) * tw (lg ly) /\ h = (y1 - y0 + 1) * th (lg ly))
+    (* the meta tile of a tile of the grid, or (minimize_meta_requests) the block spanned by two tiles of the grid
+    (the request up_request = the block plus meta_buffer pixels cut to the grid bbox, its size in pixels of the level) *)
+    exists l ub, EUp b w h = up_request ly l ub /\
+      ((exists m, valid_coord (lg ly) m /\ cl m = l /\ ub = meta_bbox ly m) \/
+       (exists x0 y0 x1 y1, valid_coord (lg ly) (x0, y0, l) /\ valid_coord (lg ly) (x1, y1, l) /\
+          ub = merge_bbox (tile_bbox (lg ly) x0 y0 l) (tile_bbox (lg ly) x1 y1 l)))
   | EInfo b _ _ => exists x y l, valid_coord (lg ly) (x, y, l) /\ b = tile_bbox (lg ly) x y l
   end.
 
@@ -229,6 +230,16 @@ Proof.
     destruct (rsvc q); cbn [is_fi is_wmts] in *; try discriminate; exact Hd.
 Qed.
 
+(* GetFeatureInfo with an InfoFormat the service does not offer (rinfo_ok = false; a service without
+   featureinfo_formats offers none) is refused without effects *)
+Lemma serve_tile_unknown_infoformat ly cached q :
+  is_fi (rsvc q) = true -> rinfo_ok q = false -> exists e, serve_tile ly cached q = (Err e, []).
+Proof.
+  intros Hfi Hi. unfold serve_tile. rewrite Hi. destruct (rsvc q); cbn [is_fi] in Hfi; try discriminate;
+    destruct (rfmt q); destruct (rx q); destruct (ry q); destruct (rz q); cbn [negb];
+    repeat match goal with |- context [if ?b then _ else _] => destruct b end; eauto.
+Qed.
+
 (* a request whose other parameters are in order reaches TileLayer.render *)
 Lemma serve_tile_wellformed ly cached s o d io i j x y z f :
   is_fi s = false -> (is_wmts s = true -> wmts_layer_ok ly = true) -> 0 <= z ->
@@ -281,13 +292,36 @@ Proof.
   pose proof (limit_tile_some _ _ _ _ _ He) as (-> & _). exact He.
 Qed.
 
+Lemma up_request_inside ly l ub :
+  (exists l' ub', up_request ly l ub = up_request ly l' ub' /\
+     ((exists m, valid_coord (lg ly) m /\ cl m = l' /\ ub' = meta_bbox ly m) \/
+      (exists x0 y0 x1 y1, valid_coord (lg ly) (x0, y0, l') /\ valid_coord (lg ly) (x1, y1, l') /\
+         ub' = merge_bbox (tile_bbox (lg ly) x0 y0 l') (tile_bbox (lg ly) x1 y1 l')))) ->
+  effect_inside ly (up_request ly l ub).
+Proof.
+  intros H. unfold up_request at 1. destruct (bbox_px ly l (buffered_bbox ly l ub)) as [w h] eqn:E.
+  cbn [effect_inside]. destruct H as (l' & ub' & Heq & H). exists l', ub'. split; [|exact H].
+  rewrite <- Heq. unfold up_request. rewrite E. reflexivity.
+Qed.
+
+(* with a meta_buffer the upstream request never reaches over the grid bbox *)
+Lemma buffered_bbox_in_grid_bbox ly l ub :
+  0 < lbuf ly ->
+  let '(x0, y0, x1, y1) := buffered_bbox ly l ub in
+  gx0 (lg ly) <= x0 /\ gy0 (lg ly) <= y0 /\ x1 <= gx1 (lg ly) /\ y1 <= gy1 (lg ly).
+Proof.
+  intros H. unfold buffered_bbox. destruct (lbuf ly <=? 0) eqn:E; [lia|].
+  destruct ub as [[[x0 y0] x1] y1]. lia.
+Qed.
+
 Lemma create_meta_inside ly m e :
   valid_coord (lg ly) m -> In e (create_meta ly m) -> effect_inside ly e.
 Proof.
-  intros Hv. unfold create_meta. destruct (meta_px ly m) as [w h] eqn:Ep.
+  intros Hv. unfold create_meta.
   rewrite !in_app_iff. intros [H|[H|H]].
   - apply in_map_iff in H. destruct H as (c & <- & Hc). apply somes_In in Hc. eapply meta_members_valid; eauto.
-  - destruct H as [<-|[]]. left. exists m. repeat split; auto.
+  - destruct H as [<-|[]]. apply up_request_inside. exists (cl m), (meta_bbox ly m). split; [reflexivity|].
+    left. exists m. auto.
   - apply in_map_iff in H. destruct H as (c & <- & Hc). apply somes_In in Hc. eapply meta_members_valid; eauto.
 Qed.
 
@@ -342,7 +376,8 @@ Proof.
     inversion He; subst c. apply valid_coord_iff. fold nx ny. repeat split; try exact Hlv; lia. }
   rewrite !in_app_iff. intros [H|[H|H]].
   - apply in_map_iff in H. destruct H as (c & <- & Hc). apply somes_In in Hc. apply Hmem. exact Hc.
-  - destruct H as [<-|[]]. right. exists minx, miny, maxx, maxy, l. repeat split; try reflexivity;
+  - destruct H as [<-|[]]. apply up_request_inside. eexists l, _. split; [reflexivity|].
+    right. exists minx, miny, maxx, maxy. repeat split; try reflexivity;
       apply valid_coord_iff; fold nx ny; repeat split; try exact Hlv; lia.
   - apply in_map_iff in H. destruct H as (c & <- & Hc). apply somes_In in Hc. apply Hmem. exact Hc.
 Qed.
@@ -582,7 +617,7 @@ Qed.
 
 (* ---- non-vacuity: a concrete layer (3 levels, 5 x 3 tiles at the finest level, 2 x 2 meta tiles, one dimension) *)
 Definition ex_grid : grid := mkGrid 0 0 5120 2560 64 64 [40; 20; 10] false 23 20 4 1.
-Definition ex_layer : layer := mkLayer ex_grid 1 [(1, ([2; 3], 2))] 2 2 false false true (Some 4) false false.
+Definition ex_layer : layer := mkLayer ex_grid 1 [(1, ([2; 3], 2))] 2 2 false false true (Some 4) false false 0.
 Definition ex_req (s : svc) (x y z : Z) : treq := mkReq s (Some x) (Some y) (Some z) (Some 1) None [] true true true 3 4.
 
 Example ex_layer_wf : layer_wf ex_layer /\ ress (lg ex_layer) <> [].
@@ -625,7 +660,7 @@ Proof. vm_compute. reflexivity. Qed.
 (* a grid whose levels shrink by sqrt2 (every second level hidden from TMS / KML): WMTS TileMatrix 3 is level 3 of
    the grid (4 x 2 tiles: column 3 is the last one), TMS level 1 is level 2 (3 x 2 tiles), TMS level 2 does not exist *)
 Definition ex_sqrt2_grid : grid := mkGrid 0 0 5120 2560 64 64 [40; 28; 20; 14] true 23 20 4 1.
-Definition ex_sqrt2_layer : layer := mkLayer ex_sqrt2_grid 1 [] 1 1 false true true None false false.
+Definition ex_sqrt2_layer : layer := mkLayer ex_sqrt2_grid 1 [] 1 1 false true true None false false 0.
 Example ex_sqrt2_levels :
   grid_sizes ex_sqrt2_grid = [(2, 1); (3, 2); (4, 2); (6, 3)] /\
   serve_tile ex_sqrt2_layer [] (ex_req WmtsRest 5 2 3) =
@@ -661,7 +696,7 @@ Example ex_clip :
 Proof. vm_compute. reflexivity. Qed.
 
 (* a layer on a mixed cache (cache format id 3): png is served, jpeg and "mixed" itself are refused *)
-Definition ex_mixed_layer : layer := mkLayer ex_grid 3 [] 1 1 false false true None true false.
+Definition ex_mixed_layer : layer := mkLayer ex_grid 3 [] 1 1 false false true None true false 0.
 Example ex_mixed :
   fst (serve_tile ex_mixed_layer [] (ex_req KML 0 0 0)) = Ok /\
   serve_tile ex_mixed_layer [] (mkReq KML (Some 0) (Some 0) (Some 0) (Some 2) None [] true true true 0 0) = (Err InvalidFormat, []) /\
@@ -680,7 +715,7 @@ Proof. vm_compute. repeat split; reflexivity. Qed.
 
 (* minimize_meta_requests: the three missing tiles of a 3 x 1 request are fetched with one upstream request for
    the block they span (192 x 64 pixels) and all three are stored; with the tile limit 3 the request is refused *)
-Definition ex_min_layer (limit : option Z) : layer := mkLayer ex_grid 1 [] 2 2 false false true limit false true.
+Definition ex_min_layer (limit : option Z) : layer := mkLayer ex_grid 1 [] 2 2 false false true limit false true 0.
 Example ex_minimize :
   serve_map None None (ex_min_layer None) [] ex_map3 =
     (Ok, [ERead (0, 0, 2); ERead (1, 0, 2); ERead (2, 0, 2); EProbe (0, 0, 2); EProbe (1, 0, 2); EProbe (2, 0, 2);
@@ -689,6 +724,21 @@ Example ex_minimize :
   serve_map None None (ex_min_layer (Some 3)) [] ex_map3 = (Err TooManyTiles, []) /\
   serve_direct (Some 10000) None (mkMap (0, 0, 3000, 3000) 101 100 1 true) = (Err TooLarge, []) /\
   serve_direct (Some 10000) None (mkMap (0, 0, 3000, 3000) 100 100 1 true) = (Ok, [EUp (0, 0, 3000, 3000) 100 100]).
+Proof. vm_compute. repeat split; reflexivity. Qed.
+
+Example ex_infoformat :
+  serve_tile ex_layer [] (mkReq WmtsRestFI (Some 0) (Some 0) (Some 0) None None [] true true false 3 4) = (Err UnknownInfoFormat, []) /\
+  fst (serve_tile ex_layer [] (mkReq WmtsRestFI (Some 0) (Some 0) (Some 0) None None [] true true true 3 4)) = Ok.
+Proof. vm_compute. split; reflexivity. Qed.
+
+(* meta_buffer 10 px on 2 x 2 meta tiles: the request for the south-west meta tile of level 2 is grown by 100 units to
+   the north and east and cut at the grid bbox in the south and west: 1380 / 10 = 138 pixels *)
+Definition ex_buf_layer : layer := mkLayer ex_grid 1 [] 2 2 false false true None false false 10.
+Example ex_meta_buffer :
+  serve_tile ex_buf_layer [] (ex_req KML 1 1 2) =
+    (Ok, [ERead (1, 1, 2); EProbe (1, 1, 2); EProbe (0, 1, 2); EProbe (1, 1, 2); EProbe (0, 0, 2); EProbe (1, 0, 2);
+          EUp (0, 0, 1380, 1380) 138 138; EStore (0, 1, 2); EStore (1, 1, 2); EStore (0, 0, 2); EStore (1, 0, 2)]) /\
+  round_half_even 25 10 = 2 /\ round_half_even 35 10 = 4 /\ round_half_even 26 10 = 3.
 Proof. vm_compute. repeat split; reflexivity. Qed.
 
 (* WMTS GetFeatureInfo does not compare FORMAT with the layer format (behaviour pinned by the test-suite of mapproxy):
